@@ -213,7 +213,18 @@ func exposerTable(c *core.Ctx, l *lifecycleRoles) (rs rows, runs int, undecided 
 				return depList(st.metaDep)
 			}
 		}
-		return t, []absint.Value{f, name, meta}, nil
+		metaN := c.Named("component_definition", "Meta")
+		return t, layoutArgs(l.exposer, func(ty types.Type) absint.Value {
+			switch {
+			case core.NamedOf(ty) == metaN:
+				return meta
+			case isString(ty):
+				return name
+			case l.exposer.Signature.Recv() != nil && types.Identical(ty, l.exposer.Signature.Recv().Type()):
+				return f
+			}
+			return nil
+		}), nil
 	}
 	contains := func(s []string, x string) bool {
 		for _, y := range s {
@@ -770,12 +781,20 @@ func earlyFactoryTable(c *core.Ctx, l *lifecycleRoles, maxLen int) (rs rows, run
 				proxies = append(proxies, p)
 				return absint.Tuple{p, absint.Nil{}}
 			}
-			pick := func(et types.Type) absint.Value {
+			pick0 := func(et types.Type) absint.Value {
 				switch {
 				case core.NamedOf(et) == metaT:
 					return meta
 				case isString(et):
 					return name
+				case l.exposer.Signature.Recv() != nil && core.NamedOf(et) != nil && core.NamedOf(et) == core.NamedOf(l.exposer.Signature.Recv().Type()):
+					return f
+				}
+				return nil
+			}
+			pick := func(et types.Type) absint.Value {
+				if v := valueOfType(et, pick0, 0); v != nil {
+					return v
 				}
 				return f
 			}
